@@ -134,6 +134,7 @@ pub fn gen_cert_pool(n: usize) {
 fn install_seams(plan: &Plan) {
     // process-wide state of rustrtc must not survive from an earlier run of this worker process
     rustrtc::transports::ice::shared_udp::verif_reset_registry();
+    rustrtc::transports::ice::shared_tcp::verif_reset_registry();
     let mut r = Rng::new(mix(plan.seed, 0x72616e64));
     vh::set_random_source(Some(Box::new(move |b: &mut [u8]| r.fill(b))));
     let _ = pool();
@@ -163,6 +164,8 @@ fn install_seams(plan: &Plan) {
         vh::set_io_yield_decider(None);
     }
     vh::set_virtual_wall_clock(true);
+    // iteration order of rustrtc's seeded hash maps (ICE's table of TCP streams) is a function of the plan
+    vh::set_hash_seed(mix(plan.seed, 0x686173686d6170));
     vh::set_local_ip_override(Some("10.0.0.9".parse().unwrap()));
     vh::set_initial_tsn_override(None);
 }
@@ -173,6 +176,7 @@ fn clear_seams() {
     vh::set_defer_decider(None);
     vh::set_io_yield_decider(None);
     vh::set_udp_binder(None);
+    vh::set_tcp_binder(None);
     vh::set_initial_tsn_override(None);
     vh::set_local_ip_override(None);
     vh::set_virtual_wall_clock(false);
